@@ -208,7 +208,7 @@ fn concretise(kinds: &[K]) -> Vec<Tok> {
 }
 
 fn damaged_case(ctx: &Ctx, ch: &mut Ch) -> Outcome {
-    let kind = ch.pick(4);
+    let kind = ch.pick(5);
     let toks: Vec<Tok> = if kind == 0 {
         // Unbalanced brackets.
         let depth = 1 + ch.pick(200);
@@ -258,6 +258,19 @@ fn damaged_case(ctx: &Ctx, ch: &mut Ch) -> Outcome {
                     }
                 }
             }
+            4 => {
+                // Names scrambled: one to three identifier tokens (binders and occurrences alike)
+                // take the name of another identifier of the sentence or a name bound nowhere, so
+                // that names are mentioned where they are not in scope (a parameter inside its own
+                // annotation, a definition of an inner group outside it) or bound twice.
+                let idents: Vec<usize> = t.iter().enumerate().filter(|(_, x)| matches!(x, Tok::Ident(_))).map(|(i, _)| i).collect();
+                if !idents.is_empty() {
+                    for _ in 0..1 + ch.pick(3) {
+                        let p = idents[ch.pick(idents.len())];
+                        t[p] = if ch.chance(1, 5) { Tok::Ident(["zz", "_u", "c0"][ch.pick(3)].into()) } else { t[idents[ch.pick(idents.len())]].clone() };
+                    }
+                }
+            }
             _ => {
                 // Double an operator in the middle / drop all closing brackets.
                 if ch.chance(1, 2) {
@@ -278,6 +291,8 @@ fn damaged_case(ctx: &Ctx, ch: &mut Ch) -> Outcome {
         (0, _) => "brackets: rejected",
         (1, Stage::Accepted) => "prefix of a sentence: accepted",
         (1, _) => "prefix of a sentence: rejected",
+        (4, Stage::Accepted) => "sentence with names scrambled: accepted",
+        (4, _) => "sentence with names scrambled: rejected",
         (_, Stage::Accepted) => "damaged sentence: accepted",
         _ => "damaged sentence: rejected",
     });
@@ -390,7 +405,7 @@ pub fn def(tier: Tier) -> CheckDef {
     CheckDef {
         id: "C14",
         level: "exploration",
-        rule: "library stages under catch_unwind in worker processes (an abort or hang is attributed to the announced case): proptest-generated Unicode strings, token soups and character-damaged sentences through tokenize -> parse -> type_check; every token string up to length 4/5 over the 28 kinds through parse (exhaustive); sentences with token deletions / insertions / substitutions, every prefix, doubled operators, dropped closing brackets, and unbalanced brackets of depth 1-200; scoping-valid mostly ill-typed generated programs through the checker; and `gram check` on files of arbitrary bytes (invalid UTF-8, empty, soups, damaged sentences, nesting up to 1000); oracle = no panic, Ok or a non-empty list of diagnostics that all start with [Error], CLI: exit 0 with the result on stdout and empty stderr, or exit 1 with empty stdout and [Error] on stderr; non-trivial = the input tokenizes (reaches the parser or the checker); distinct by text; in the checker part half of the programs are `hole puzzles` (lambdas with omitted annotations, conditionals, variables; no application and no definition), on which an abort of the checker or of printing its result is a violation, since such a program gives the checker nothing to loop on",
+        rule: "library stages under catch_unwind in worker processes (an abort or hang is attributed to the announced case): proptest-generated Unicode strings, token soups and character-damaged sentences through tokenize -> parse -> type_check; every token string up to length 4/5 over the 28 kinds through parse (exhaustive); sentences with token deletions / insertions / substitutions, every prefix, doubled operators, dropped closing brackets, identifier names scrambled (names mentioned where they are not in scope, or bound twice), and unbalanced brackets of depth 1-200; scoping-valid mostly ill-typed generated programs through the checker; and `gram check` on files of arbitrary bytes (invalid UTF-8, empty, soups, damaged sentences, nesting up to 1000); oracle = no panic, Ok or a non-empty list of diagnostics that all start with [Error], CLI: exit 0 with the result on stdout and empty stderr, or exit 1 with empty stdout and [Error] on stderr; non-trivial = the input tokenizes (reaches the parser or the checker); distinct by text; in the checker part half of the programs are `hole puzzles` (lambdas with omitted annotations, conditionals, variables; no application and no definition), on which an abort of the checker or of printing its result is a violation, since such a program gives the checker nothing to loop on",
         assumptions: vec![
             "an abort or timeout inside type_check is counted as inconclusive (divergent computation written in the program is allowed); inside tokenize / parse it is a violation",
             "nesting deeper than about 3000 parentheses exhausts the CLI's 16 MiB stack; the CLI part stays at depth <= 1000",
